@@ -112,9 +112,10 @@ def cg(A: LinearOperator, B: torch.Tensor,
     if max_niter is None:
         max_niter = int(1.5 * nr)
 
-    # if B is all zeros, then return zeros
+    # if the zero initial guess already meets the stopping condition (e.g. B is
+    # all zeros), then return zeros
     batchdims = _get_batchdims(A, B, E, M)
-    if torch.allclose(B, B * 0, rtol=rtol, atol=atol):
+    if _zero_meets_stop_cond(B, rtol, atol):
         x0 = torch.zeros((*batchdims, nr, ncols), dtype=A.dtype, device=A.device)
         return x0
 
@@ -250,9 +251,10 @@ def bicgstab(A: LinearOperator, B: torch.Tensor,
     if max_niter is None:
         max_niter = int(1.5 * nr)
 
-    # if B is all zeros, then return zeros
+    # if the zero initial guess already meets the stopping condition (e.g. B is
+    # all zeros), then return zeros
     batchdims = _get_batchdims(A, B, E, M)
-    if torch.allclose(B, B * 0, rtol=rtol, atol=atol):
+    if _zero_meets_stop_cond(B, rtol, atol):
         x0 = torch.zeros((*batchdims, nr, ncols), dtype=A.dtype, device=A.device)
         return x0
 
@@ -380,9 +382,10 @@ def gmres(A: LinearOperator, B: torch.Tensor,
     if max_niter is None:
         max_niter = int(nr)
 
-    # if B is all zeros, then return zeros
+    # if the zero initial guess already meets the stopping condition (e.g. B is
+    # all zeros), then return zeros
     batchdims = _get_batchdims(A, B, E, M)
-    if torch.allclose(B, B * 0, rtol=rtol, atol=atol):
+    if _zero_meets_stop_cond(B, rtol, atol):
         x0 = torch.zeros((*batchdims, nr, ncols), dtype=A.dtype, device=A.device)
         return x0
 
@@ -470,6 +473,13 @@ def gmres(A: LinearOperator, B: torch.Tensor,
 
 
 ############ cg and bicgstab helpers ############
+def _zero_meets_stop_cond(B: torch.Tensor, rtol: float, atol: float) -> bool:
+    # the residual of the zero vector is B itself: apply the stopping condition
+    # of the iterations to it, i.e. compare the norm of every column of B (not its
+    # elements one by one) with max(rtol * |B|, atol)
+    B_norm = B.norm(dim=-2)
+    return bool(torch.all(B_norm <= torch.clamp(rtol * B_norm, min=atol)))
+
 def _safedenom(r: torch.Tensor, eps: float) -> torch.Tensor:
     r[r == 0] = eps
     return r
